@@ -56,6 +56,8 @@ type world struct {
 	defs   []string // Gallina definitions of this world (stores, ground truths)
 	names  []string
 	values map[string][]string
+	wide   int    // >0: a label with this many distinct values (postings offset table sampling boundaries)
+	wname  string // its name
 }
 
 func check(err error) {
@@ -158,14 +160,14 @@ func readStore(ir tsdb.IndexReader, head bool, min, max int64, headChunks map[st
 	return fmt.Sprintf("(mkSt %s %s %s %s %s)", kind, gallina.Z(min), gallina.Z(max), gallina.List(ss), gallina.List(lvs)), len(refs)
 }
 
-func buildWorld(r *gen.Rand, wi int, dir string, thorough bool) *world {
+func buildWorld(r *gen.Rand, wi int, dir string, thorough bool, wide int, wname string) *world {
 	opts := tsdb.DefaultOptions()
 	opts.WALSegmentSize = -1
 	opts.RetentionDuration = 0
 	db, err := tsdb.Open(dir, nil, nil, opts, nil)
 	check(err)
 	db.DisableCompactions()
-	w := &world{db: db, values: map[string][]string{}}
+	w := &world{db: db, values: map[string][]string{}, wide: wide, wname: wname}
 
 	// series
 	maxSeries := 8
@@ -173,6 +175,17 @@ func buildWorld(r *gen.Rand, wi int, dir string, thorough bool) *world {
 		maxSeries = 14
 	}
 	n := 1 + r.Intn(maxSeries)
+	if wide > 0 {
+		n = 0 // wide world: one tiny series per value of the wide label
+		for i := 0; i < wide; i++ {
+			b := labels.NewBuilder(labels.EmptyLabels())
+			b.Set(wname, wideValue(i))
+			if r.Chance(1, 4) {
+				b.Set("a", gen.Pick(r, valuePool["a"]))
+			}
+			w.series = append(w.series, &tseries{lset: b.Labels()})
+		}
+	}
 	seen := map[string]bool{}
 	for i := 0; i < n; i++ {
 		b := labels.NewBuilder(labels.EmptyLabels())
@@ -192,7 +205,11 @@ func buildWorld(r *gen.Rand, wi int, dir string, thorough bool) *world {
 		w.series = append(w.series, &tseries{lset: labels.FromStrings("a", "x")})
 	}
 	// phases: which of block0, block1, head exist
-	layout := r.Intn(6) // 0: head only, 1: one block only, 2: block+head, 3: two blocks, 4: two blocks+head, 5: like 4
+	layout := r.Intn(6)
+	if wide > 0 {
+		layout = 2 // the same data in a persisted block and in the head
+	}
+	_ = layout // 0: head only, 1: one block only, 2: block+head, 3: two blocks, 4: two blocks+head, 5: like 4
 	phases := []bool{false, false, false}
 	switch layout {
 	case 0:
@@ -218,6 +235,9 @@ func buildWorld(r *gen.Rand, wi int, dir string, thorough bool) *world {
 		app := db.Appender(ctx)
 		for si, s := range w.series {
 			k := r.Intn(4) // 0..3 samples in this phase
+			if wide > 0 {
+				k = 1
+			}
 			if !any && si == len(w.series)-1 && k == 0 {
 				k = 1 // at least one sample per phase
 			}
@@ -418,6 +438,29 @@ func genMatcher(r *gen.Rand, w *world) gmatcher {
 	return mkMatcher(w, t, name, value)
 }
 
+func wideValue(i int) string { return fmt.Sprintf("v%03d", i) }
+
+var wideSizes = []int64{31, 32, 33, 34, 63, 64, 65, 66, 97}
+var wideRegexes = []string{".+", ".*", "", "v0.*", "v03.", "v.*2", "v032|v064", "v0(31|32|33)", "v09.|v06.", "v0[0-2].", "v03[0-9]|"}
+
+// genWide: a matcher on the wide label (regex / non-empty / empty / equality / set)
+func genWide(r *gen.Rand, w *world) gmatcher {
+	t := labels.MatchType(r.Intn(4))
+	if t == labels.MatchRegexp || t == labels.MatchNotRegexp {
+		return mkMatcher(w, t, w.wname, gen.Pick(r, wideRegexes))
+	}
+	v := ""
+	switch r.Intn(5) {
+	case 0:
+		v = wideValue(w.wide - 1) // the greatest value
+	case 1:
+		v = wideValue(r.Intn(w.wide))
+	case 2:
+		v = "nope"
+	}
+	return mkMatcher(w, t, w.wname, v)
+}
+
 // genBroad: a matcher that usually keeps many series
 func genBroad(r *gen.Rand, w *world) gmatcher {
 	name := gen.Pick(r, namePool)
@@ -465,7 +508,7 @@ func pickTime(r *gen.Rand, w *world) int64 {
 func main() {
 	f := gallina.ParseFlags()
 	meta := gallina.NewMeta("C16", f.Seed, f.Tier)
-	meta.Rule = "one case = one query on a real querier; world 0 replays the corpus of empty-label-name reproducers; worlds (DBs) are generated with 1..8 (thorough 14) series over 4 label names, samples in up to 3 phases (2 compacted to blocks, 1 in head); queries: Select(sorted/unsorted) / LabelValues / LabelNames with 0..4 generated matchers (=,!=,=~,!~; regexes from a pool incl. .*, .+, empty-matching, set-style, negations on absent labels, duplicates on one name), time range, limit; targets: one block, range head, DB.Querier. non-trivial = at least one matcher and the unlimited answer is neither empty nor everything stored; distinct by (world, target, query, matchers, range)"
+	meta.Rule = "one case = one query on a real querier; world 0 replays the corpus of empty-label-name reproducers; every 10th world (and worlds 1, 2 as corpus: 33 and 65 values) is a wide world: a label with 31..97 distinct values (postings offset table sampling boundaries) in a block and in the head, queried with LabelValues and regex/non-empty/empty matchers on it; worlds (DBs) are generated with 1..8 (thorough 14) series over 4 label names, samples in up to 3 phases (2 compacted to blocks, 1 in head); queries: Select(sorted/unsorted) / LabelValues / LabelNames with 0..4 generated matchers (=,!=,=~,!~; regexes from a pool incl. .*, .+, empty-matching, set-style, negations on absent labels, duplicates on one name), time range, limit; targets: one block, range head, DB.Querier. non-trivial = at least one matcher and the unlimited answer is neither empty nor everything stored; distinct by (world, target, query, matchers, range)"
 	// intern every pool string (names, values, regexes and their SetMatches)
 	for _, s := range []string{"", "zz", "nope"} {
 		intern(s)
@@ -473,6 +516,18 @@ func main() {
 	for _, n := range namePool {
 		intern(n)
 		for _, v := range valuePool[n] {
+			intern(v)
+		}
+	}
+	for _, n := range []string{"w", "bb"} {
+		intern(n)
+	}
+	for i := 0; i < 97; i++ {
+		intern(wideValue(i))
+	}
+	for _, re := range wideRegexes {
+		intern(re)
+		for _, v := range labels.MustNewMatcher(labels.MatchRegexp, "a", re).SetMatches() {
 			intern(v)
 		}
 	}
@@ -505,7 +560,19 @@ func main() {
 		r := gen.Fork(f.Seed, wi)
 		dir, err := os.MkdirTemp(tmp, "w")
 		check(err)
-		w := buildWorld(r, wi, dir, thorough)
+		wide, wname := 0, ""
+		switch {
+		case wi == 1: // corpus: 33 values, label name that is not the last one of the table
+			wide, wname = 33, "bb"
+		case wi == 2: // corpus: 65 values, last label name of the table
+			wide, wname = 65, "w"
+		case wi%10 == 3:
+			wide, wname = int(gen.Pick(r, wideSizes)), gen.Pick(r, []string{"w", "bb"})
+		}
+		w := buildWorld(r, wi, dir, thorough, wide, wname)
+		if wide > 0 {
+			meta.Hit(fmt.Sprintf("wide-world:%d", wide))
+		}
 		var seriesDesc []string
 		for _, s := range w.series {
 			seriesDesc = append(seriesDesc, fmt.Sprintf("%s@%v", s.lset.String(), s.times))
@@ -524,6 +591,25 @@ func main() {
 					gm = mkMatcher(w, labels.MatchType(r.Intn(4)), prev.m.Name, gm.m.Value)
 				}
 				gms = append(gms, gm)
+			}
+			if w.wide > 0 && qi >= 2 {
+				gms = nil
+				for j, k := 0, r.Intn(3); j < k; j++ {
+					gms = append(gms, genWide(r, w))
+				}
+				if r.Chance(1, 5) {
+					gms = append(gms, genMatcher(r, w))
+				}
+				switch qi { // fixed reproducers of the sampling-boundary shapes
+				case 2:
+					gms = []gmatcher{mkMatcher(w, labels.MatchRegexp, w.wname, ".+")}
+				case 3:
+					gms = []gmatcher{mkMatcher(w, labels.MatchNotEqual, w.wname, "")}
+				case 4:
+					gms = []gmatcher{mkMatcher(w, labels.MatchEqual, w.wname, "")}
+				case 5:
+					gms = nil
+				}
 			}
 			if wi == 0 && qi >= 6 && qi-6 < len(corpus) {
 				gms = nil
@@ -590,10 +676,19 @@ func main() {
 			if wi == 0 && qi >= 6 && qi-6 < len(corpus) {
 				mint, maxt = math.MinInt64, math.MaxInt64
 			}
+			if w.wide > 0 && qi >= 2 && qi <= 5 {
+				mint, maxt = math.MinInt64, math.MaxInt64
+			}
 			// target
 			mode, target := "DB", "db"
 			var stores []gstore
 			ti := r.Intn(len(w.stores) + 2)
+			if w.wide > 0 && qi >= 2 && qi <= 5 {
+				ti = 1 // the persisted block
+				if qi == 3 {
+					ti = len(w.stores) // DB.Querier
+				}
+			}
 			if ti < len(w.stores) {
 				mode = "Direct"
 				stores = []gstore{w.stores[ti]}
@@ -630,7 +725,14 @@ func main() {
 			if isCorpus {
 				kindSel = 0
 			}
-			if qi >= 3 && qi <= 5 {
+			wideFixed := w.wide > 0 && qi >= 2 && qi <= 5
+			if wideFixed {
+				kindSel, limit = 0, 0
+				if qi == 5 {
+					kindSel = 2
+				}
+			}
+			if w.wide == 0 && qi >= 3 && qi <= 5 {
 				// limit stream: LabelValues/LabelNames with a small limit and one or two broad
 				// matchers on other labels (exercises the limit inside labelValuesWithMatchers)
 				kindSel = 2 + r.Intn(2)
@@ -667,6 +769,9 @@ func main() {
 				name := gen.Pick(r, namePool)
 				if r.Chance(1, 10) {
 					name = "zz"
+				}
+				if w.wide > 0 && (wideFixed || r.Chance(2, 3)) {
+					name = w.wname
 				}
 				lim, _, err1 := q.LabelValues(ctx, name, &storage.LabelHints{Limit: limit}, ms()...)
 				var hints0 *storage.LabelHints
